@@ -22,7 +22,7 @@ META = {
         "quick": {"evaluations": 1500, "distinct_nontrivial": 300, "tables": {"stream/elements": 600, "stream/map-laws": 150, "stream/models": 300, "symmetry/Z2Z2": 30, "symmetry/U1U1": 30}},
         "thorough": {"evaluations": 40000, "distinct_nontrivial": 8000, "tables": {"stream/map-laws": 4000}},
     },
-    "wall": {"quick": 300, "thorough": 1700},
+    "wall": {"quick": 900, "thorough": 1700},
 }
 
 
